@@ -31,6 +31,7 @@ type Op struct {
 	Objs  func(alt int) (reads, writes []unsafe.Pointer, partner *Task)
 	Cost  func(alt int) int // CostNone / CostEnv; nil = CostNone
 	cases []Case
+	sync  int64 // race-annotation object: park -> partner's fire -> resumption
 }
 
 // Task is a goroutine under the scheduler.
@@ -189,11 +190,13 @@ func (w *World) spawn(name string, lib, required bool, parent *Task, fn func()) 
 			t.done = true
 			t.op = nil
 			RaceRelease(unsafe.Pointer(&t.obj))
+			RaceRelease(unsafe.Pointer(&abortObj))
 			raceDisable()
 			w.yield <- struct{}{}
 			raceEnable()
 		}()
 		if w.abort {
+			RaceAcquire(unsafe.Pointer(&abortObj))
 			return
 		}
 		t.started = true
@@ -241,6 +244,7 @@ func (w *World) CurPath() uint64 {
 func (w *World) Tasks() []*Task { return w.tasks }
 
 // Point parks the calling task with op and returns the fired alternative.
+//go:noinline
 func Point(op *Op) int {
 	w := W
 	t := w.cur
@@ -248,11 +252,16 @@ func Point(op *Op) int {
 		runtime.Goexit()
 	}
 	t.op = op
+	if len(op.cases) > 0 {
+		RaceRelease(unsafe.Pointer(&op.sync))
+	}
+	RaceRelease(unsafe.Pointer(&abortObj)) // everything so far happens-before the unwinding at Abort
 	raceDisable()
 	w.yield <- struct{}{}
 	<-t.wake
 	raceEnable()
 	if w.abort {
+		RaceAcquire(unsafe.Pointer(&abortObj))
 		runtime.Goexit()
 	}
 	if f := t.fireSelf; f != nil {
@@ -337,6 +346,8 @@ func (w *World) compactTimers() {
 	w.timers = w.timers[:j]
 }
 
+var abortObj int // race-annotation object ordering all unwinding after the run
+
 var clockObj int // address identifies the virtual clock as an HB object
 
 // ClockObj is the happens-before object of the virtual clock.
@@ -369,6 +380,7 @@ func (w *World) fireTimer(tm *timer) {
 }
 
 // ClockTouch is called by timer callbacks to declare objects they write.
+//go:noinline
 func (w *World) ClockTouch(p unsafe.Pointer) {
 	if w.inClock {
 		w.clockWrites = append(w.clockWrites, p)
@@ -716,6 +728,7 @@ func (w *World) SilentEvent(reads, writes []unsafe.Pointer) {
 
 // BlockOn parks until cond holds, then runs act atomically. obj is the
 // happens-before object written by the operation.
+//go:noinline
 func BlockOn(obj unsafe.Pointer, desc string, cond func() bool, act func()) {
 	Point(&Op{Desc: desc, Ready: func() []int {
 		if cond == nil || cond() {
